@@ -38,7 +38,7 @@ def jit_rows():
         Row("pc-locs", r"^jit::JitCompiler::jit_compile$", r"^index:IndexMut<I>>::index_mut\(&\*arg1<&mut jit::JitCompiler>\.pc_locs,mut<usize>\)$", "D1",
             "pc_locs has n+1 entries (`vec![0; len/8 + 1]`) and the loop guard keeps the index below n"),
         Row("map-register", r"^jit::JitCompiler::jit_compile$", r"^precond:jit::map_register<-", "D3",
-            "register numbers of a verified program are <= 10", cites=("C06/R06.b",)),
+            "register numbers of a verified program are <= 10, and the loop only decodes verified slots", cites=("C06/R06.b", "R12.k")),
         Row("tail-call", r"^jit::JitCompiler::jit_compile$", r"^panic!unimplemented@u8=141$", "D3",
             "the verifier refuses TAIL_CALL", cites=("C06/R06.a",)),
         Row("endian", r"^jit::JitCompiler::jit_compile$", r"^panic!unreachable@u8=(212|220)(,(212|220))?;i32!in\[16,32,64\]$", "D3",
@@ -249,6 +249,30 @@ def run(rep, tier):
                 bad = sorted(T.show(t) for t in targets if not T.is_k(t) and t not in allowed)
                 rep.ob(rj, "opc=%#04x%s" % (v, "/src1" if (d["kind"] == "call" and ss == 1) else ""), not bad,
                        "jump targets recorded by the JIT for opcode %#04x" % v, expected=sorted(T.show(a) for a in allowed), found=bad or sorted(T.show(t) for t in targets))
+
+    # R12.k the compilers' loops never decode an unverified slot
+    rk = rep.rule("R12.k", "every compiler loop steps over the second slot of a wide load (pc+2), and over one slot otherwise: only slots whose register fields the verifier bounded reach the register-mapping asserts", floor=2)
+    if im.ok and jm.ok:
+        LDDW = next(v for v, d in isa.TABLE.items() if d["kind"] == "lddw")
+        pc2 = T.op("add", 64, ("v", "pc", 64), T.K(64, 2))
+        adv = {T.show(t["pc"]) if t["pc"] is not None else None for t in jm.templates(LDDW, 1, 0) if not t["err"]}
+        rep.ob(rk, "jit/lddw", adv == {T.show(pc2)}, "x86 JIT: pc after the wide-load arm", expected=T.show(pc2), found=sorted(str(a) for a in adv))
+        other = set()
+        for v, d in sorted(isa.TABLE.items()):
+            if d["kind"] in ("lddw",):
+                continue
+            for t in jm.templates(v, 1, 2 if d["kind"] != "call" else 0):
+                if not t["err"] and t["pc"] is not None and t["pc"] != nxt:
+                    other.add("%#04x: %s" % (v, T.show(t["pc"])))
+        rep.ob(rk, "jit/others", not other, "x86 JIT: pc after every other arm", expected="pc + 1", found=sorted(other)[:4] or "pc + 1")
+    import clmodel
+    ccx = Ctx(rep, "cranelift")
+    cm = clmodel.ClModel(ccx)
+    if cm.ok:
+        LDDW = next(v for v, d in isa.TABLE.items() if d["kind"] == "lddw")
+        pc2 = T.op("add", 64, ("v", "pc", 64), T.K(64, 2))
+        adv = {T.show(p["pc"]) if p.get("pc") is not None else None for p in cm.paths(LDDW, 1, 0) if not p.get("err")}
+        rep.ob(rk, "cranelift/lddw", adv == {T.show(pc2)}, "Cranelift translate: pc after the wide-load arm", expected=T.show(pc2), found=sorted(str(a) for a in adv))
 
     # R12.e repeatability
     re_ = rep.rule("R12.e", "no clock / RNG / environment access reachable from the compilers", floor=1)
